@@ -20,7 +20,18 @@ compatible units (U, U') and executed on the real pint.  Clauses decided per cas
                equal to the kelvin run - a returned value that differs, or that carries an offset
                unit inside a compound unit, is "not refused where ambiguous"
 
-Deviations from DESIGN.md: (1) discrete-valued outputs (comparisons, isin, searchsorted, arg*)
+Besides every name of HANDLED_FUNCTIONS / HANDLED_UFUNCS / the wrapped ndarray methods and
+properties of NumpyQuantity (names absent from the table are reported as 'uncovered'; >10 % makes
+the run inconclusive; names pint registers but this NumPy no longer has - trapz, ndarray.ptp -
+are reported as 'unreachable'), the table has entries for Unit objects as ufunc operands
+(facets/numpy/unit.py) and for to/ito/m_as and the (in-place) arithmetic operators on arrays
+(facets/plain/quantity.py: only ito and the i-operators may touch the operand's buffer).
+Result quantities are normalised with the check's own factor table (not with pint's conversion).
+
+Deviations from DESIGN.md: (0) the offset clause uses the kelvin run as its oracle instead of a
+per-function list: a returned value is accepted iff it is physically the kelvin result, an
+exception is always accepted (refusal); unary minus/abs are not probed because pint's own unary
+operators accept offset units too. (1) discrete-valued outputs (comparisons, isin, searchsorted, arg*)
 use mutually well separated values and a stability guard (reference evaluated in the base frame
 and in the frame of the first argument must agree, else the case is skipped and counted), since
 float conversion noise legitimately flips ties; cross-unit *equality* is only demanded when all
@@ -29,20 +40,23 @@ is not TypeError/NotImplementedError (those are counted as 'refused_option': pin
 optional argument unsupported is not a wrong number). (3) names of HANDLED_UFUNCS that are not
 NumPy ufuncs (sum, cumprod, ...) are only reachable as Quantity methods and are covered there.
 """
-import math
 import random
 
 PID = "C16"
-RULE = ("every (kind, name, call variant) of the check's own table x registry configuration "
-        "{default, force_ndarray, force_ndarray_like} x R random cases (ranks 0-3, per-argument "
-        "random compatible units, two realisations U/U'); error mode: one argument re-dimensioned "
-        "or made bare; offset mode: degC/degF vs kelvin.  A case is distinct by (mode, config, "
-        "kind, name, variant, assigned units, shapes); non-trivial = at least one argument in a "
-        "non-root unit or an error/offset probe")
+RULE = ("every (kind, name, call variant) of the check's own table (NumPy functions, ufuncs, "
+        "Quantity methods/properties, Unit operands, conversions and (in-place) operators) x "
+        "registry configuration {default, force_ndarray, force_ndarray_like} x R random cases "
+        "(ranks 0-3, per-argument random compatible units, two realisations U/U'); error mode: "
+        "one argument re-dimensioned or made bare; offset mode: degC/degF vs kelvin (default and "
+        "autoconvert_offset_to_baseunit registries).  A case is distinct by (mode, config, kind, "
+        "name, variant, assigned units, shapes); non-trivial = at least one argument in a "
+        "non-root unit, or an error/offset probe")
 ASSUMPTIONS = [
     "c16_table.py transcribes NumPy's documented semantics correctly (human-written)",
-    "the 33 unit factors of the own table agree with the registry (verified at shard start)",
-    "result quantities are normalised with pint's own to_root_units (conversion is C02's subject)",
+    "the unit factors of the own table agree with the registry (verified at every shard start; "
+    "a disagreement makes the run inconclusive)",
+    "inputs are built and results are normalised with the check's own factors, not pint's "
+    "conversion (pint's to_root_units is only used for unit names outside the table: counted)",
     "rtol 1e-9 (float32 variants 1e-5); discrete outputs only where the reference is stable",
     "TypeError/NotImplementedError on an optional-argument form = declared unsupported, not wrong",
 ]
@@ -64,10 +78,10 @@ def required(tier):
 def shards(tier, seed):
     q = tier == "quick"
     out = []
-    n_main = 6 if q else 12
+    n_main = 6 if q else 10
     for i in range(n_main):
         out.append({"mode": "main", "cfg": "default", "part": i, "parts": n_main,
-                    "reps": 24 if q else 600, "name": f"main-default-{i}"})
+                    "reps": 24 if q else 700, "name": f"main-default-{i}"})
     for cfg in ("force_ndarray", "force_ndarray_like"):
         n = 2 if q else 3
         for i in range(n):
